@@ -1656,6 +1656,56 @@ pub mod newline {
     }
 }
 
+/// The missed-span writer (`missed_spans.rs`): the text between two formatted nodes.
+pub mod missed {
+    use crate::config::Config;
+    use crate::missed_spans::verif_local::{MissedEntry, format_missing_call};
+    use crate::shape::Indent;
+
+    /// What one call left behind.
+    #[derive(Debug, Clone, PartialEq, Eq)]
+    pub struct After {
+        pub buffer: String,
+        pub line_number: usize,
+        /// offset into the text
+        pub last_pos: usize,
+        /// where the text starts in the source map
+        pub base: usize,
+    }
+
+    /// One call on a fresh `FmtVisitor` over `text` (held by the snippet provider exactly as
+    /// given; `last_pos` and `end` are byte offsets into it) whose buffer holds `buffer` and
+    /// whose `block_indent` is `(block_indent, alignment)`. `entry`: 0 = `format_missing(end)`,
+    /// 1 = `format_missing_with_indent(end)`, 2 = `format_missing_no_indent(end)`. `pad > 0`
+    /// puts a file of that many bytes in front of the text in the source map. Panics of the
+    /// real code propagate.
+    pub fn format_missing(
+        text: &str,
+        pad: usize,
+        buffer: &str,
+        block_indent: (usize, usize),
+        last_pos: usize,
+        end: usize,
+        entry: u8,
+        config: &Config,
+    ) -> After {
+        let entry = match entry {
+            0 => MissedEntry::Plain,
+            1 => MissedEntry::WithIndent,
+            _ => MissedEntry::NoIndent,
+        };
+        let indent = Indent::new(block_indent.0, block_indent.1);
+        let (buffer, line_number, last_pos, base) =
+            format_missing_call(text, pad, buffer, indent, last_pos, end, entry, config);
+        After {
+            buffer,
+            line_number,
+            last_pos,
+            base,
+        }
+    }
+}
+
 /// Every method of `shape.rs` with plain integers: an `Indent` is `(block_indent, alignment)`,
 /// a `Shape` is `(width, block_indent, alignment, offset)`. Methods that can panic do panic.
 pub mod shape {
